@@ -20,7 +20,7 @@ def rules(t):
         if mapf not in recv: r.bad(f"map|{kind}", c, f"{kind}: channel not taken from {mapf}")
         if f"as {kind}.channel_id" not in recv: r.bad(f"key|{kind}", c, f"{kind}: channel looked up with another id than the packet's channel_id")
     out.append(r)
-    r = RuleResult("C03.a2", "emitted packets carry the sending channel's own id; channel objects are registered under their configured id", floor=6)
+    r = RuleResult("C03.a2", "emitted packets carry the sending channel's own id; channel objects are registered under their configured id", floor=13)
     for name in ("SendChannelReliable::get_packets_to_send", "SendChannelUnreliable::get_packets_to_send"):
         f = t.fn(name)
         for s in t.aggrs("renet::packet::Packet", None, f):
@@ -28,10 +28,17 @@ def rules(t):
             if not t.is_field(t.field_of_aggr(s, "channel_id"), "channel_id"): r.bad(f"{name}|{s.node['rv']['vname']}", s, "packet channel_id is not the channel's own id")
     fc = t.fn("RenetClient::from_channels")
     for c in t.calls(r"HashMap.*::insert$", fc):
-        key = fmt(t.arg(c, 1)); val = fmt(t.arg(c, 2))
+        key, val = t.arg(c, 1), strip(t.arg(c, 2))
         r.site(c)
-        if "channel_id" not in key: r.bad("register-key", c, "channel registered under something else than its configured channel_id")
-        if "::new(" in val and "ReceiveChannelReliable" not in val and key.split("(")[0] not in val and "channel_id" not in val: r.bad("register-val", c, "channel constructed with a different id than its map key")
+        if "channel_id" not in fmt(key): r.bad("register-key", c, "channel registered under something else than its configured channel_id")
+        # a channel object that carries an id (SendChannelReliable/Unreliable, ReceiveChannelUnreliable: first constructor argument) is built with the id it is registered under
+        if isinstance(val, tuple) and val[0] == "call" and method_of(val[1]) == "new" and "ReceiveChannelReliable" not in val[1]:
+            if not val[2] or not same(val[2][0], key): r.bad(f"register-val|{short(val[1])}", c, f"channel object constructed with id {fmt(val[2][0])[-50:] if val[2] else '?'} but registered (and looked up) under {fmt(key)[-50:]}: its packets carry another channel's id")
+    for c in t.calls(r"Vec.*::push$", fc):
+        v = strip(t.arg(c, 1))
+        if isinstance(v, tuple) and v[0] == "aggr" and "ChannelOrder" in str(v[1]):
+            r.site(c, "send order entry")
+            if "channel_id" not in fmt(v[3][0]): r.bad("order-id", c, "send-order entry does not carry the configured channel_id")
     out.append(r)
 
     r = RuleResult("C03.b", "slice geometry: start = k*SLICE_SIZE at both senders and at the receiver; sender slices end at min((k+1)*SLICE_SIZE, len); receiver copies exactly len(bytes)", floor=3)
@@ -144,4 +151,8 @@ _rules_c03b = rules
 def rules(t):
     out = _rules_c03b(t)
     out.append(length_from_last_slice(t))
+    import rules.C15 as C15
+    rr = C15.index_agreement(t); rr.id = "C03.h"
+    for v in rr.violations: v.rule = "C03.h"; v.key = "C03.h|" + v.key.split("|", 1)[1]
+    out.append(rr)
     return out
